@@ -653,3 +653,9 @@ func Census() []string {
 	}
 	return out
 }
+
+// Trace gives access to the trace collected so far.
+func (s *Session) Trace() *Trace { return s.tr }
+
+// SetAuto replaces the reactive behaviour of the scripted peers.
+func (s *Session) SetAuto(a Auto) { s.auto = a }
